@@ -549,4 +549,156 @@ theorem denote_san (html : Bool) : ∀ (n : Nat) (s : Bytes), s.length ≤ n →
 theorem senDenote_eq_sanitize (html : Bool) (s : Bytes) : senDenote html 0 true s = sanitize s :=
   (denote_san html s.length s (Nat.le_refl _)).1 true
 
+/-! ## the bare form -/
+
+/-- a byte the loop lets pass without asking for quotes -/
+def bareByte (html : Bool) (b : UInt8) : Prop :=
+  senClass b = cO ∨ senClass b = c0 ∨ (senClass b = cH ∧ html = false) ∨ 128 ≤ b
+
+/-- when the loop asks for no quotes it has copied the string unchanged, the string is well-formed
+UTF-8 (sanitising changes nothing) and every byte is of a bare class -/
+theorem force_false (html : Bool) : ∀ (s : Bytes) (k : Nat), highPrefix k s → senForce html k s = false →
+    senBody html k true s = s ∧ sanLoop k s = s ∧ ∀ x ∈ s, bareByte html x := by
+  intro s
+  induction s with
+  | nil => intro k _ _; cases k <;> simp [senBody, sanLoop]
+  | cons b r ih =>
+    intro k hk hf
+    cases k with
+    | succ k =>
+      simp only [highPrefix] at hk
+      simp only [senForce] at hf
+      obtain ⟨h1, h2, h3⟩ := ih k hk.2 hf
+      refine ⟨by simp [senBody, h1], by simp [sanLoop, h2], ?_⟩
+      intro x hx
+      rcases List.mem_cons.mp hx with rfl | hx
+      · exact Or.inr (Or.inr (Or.inr hk.1))
+      · exact h3 x hx
+    | zero =>
+      by_cases c1 : senClass b = cO ∨ senClass b = c0
+      · have hne8 : senClass b ≠ c8 := by rcases c1 with h | h <;> rw [h] <;> decide
+        have hlt : b < 128 := by
+          have : ¬ 128 ≤ b := fun h => hne8 ((class8_iff b).mpr h)
+          simpa [UInt8.not_le] using this
+        have hf' : senForce html 0 r = false := by
+          simp only [senForce] at hf
+          rcases c1 with h | h <;> simpa [h, cO, c0] using hf
+        obtain ⟨h1, h2, h3⟩ := ih 0 trivial hf'
+        refine ⟨?_, by rw [Writer.san_ascii b r hlt, h2], ?_⟩
+        · simp only [senBody]
+          rcases c1 with h | h <;> simp [h, cO, c0, cX, h1]
+        · intro x hx
+          rcases List.mem_cons.mp hx with rfl | hx
+          · rcases c1 with h | h
+            · exact Or.inl h
+            · exact Or.inr (Or.inl h)
+          · exact h3 x hx
+      · have c1' : ¬ senClass b = cO ∧ ¬ senClass b = c0 := ⟨fun h => c1 (Or.inl h), fun h => c1 (Or.inr h)⟩
+        by_cases c2 : senClass b = cX
+        · simp [senForce, c2, cO, c0, cX] at hf
+        · by_cases c3 : senClass b = cDot
+          · simp [senForce, c3, cO, c0, cX, cDot] at hf
+          · by_cases c4 : senClass b = cH
+            · have hne8 : senClass b ≠ c8 := by rw [c4]; decide
+              have hlt : b < 128 := classDot_lt b (Or.inr c4)
+              simp only [senForce] at hf
+              simp only [c4, cH, cO, c0, cX, cDot, Bool.or_eq_false_iff] at hf
+              have hf2 : html = false ∧ senForce html 0 r = false := by simpa using hf
+              obtain ⟨h1, h2, h3⟩ := ih 0 trivial hf2.2
+              refine ⟨?_, by rw [Writer.san_ascii b r hlt, h2], ?_⟩
+              · have hh := hf2.1
+                subst hh
+                simp only [senBody]
+                simp [c4, cH, cO, c0, cX, cDot, h1]
+              · intro x hx
+                rcases List.mem_cons.mp hx with rfl | hx
+                · exact Or.inr (Or.inr (Or.inl ⟨c4, hf2.1⟩))
+                · exact h3 x hx
+            · by_cases c5 : senClass b = c8
+              · have hb8 : 128 ≤ b := (class8_iff b).mp c5
+                have hp := decode_highPrefix b r hb8
+                simp only [senForce] at hf
+                simp only [c5, c8, cO, c0, cX, cDot, cH] at hf
+                have hf2 : ((utf8Decode (b :: r)).1 ≠ 0x2028 ∧ (utf8Decode (b :: r)).1 ≠ 0x2029 ∧
+                    (utf8Decode (b :: r)).1 ≠ runeError) ∧ senForce html ((utf8Decode (b :: r)).2 - 1) r = false := by
+                  by_cases hx : ((utf8Decode (b :: r)).1 = 0x2028 || (utf8Decode (b :: r)).1 = 0x2029 ||
+                      (utf8Decode (b :: r)).1 = runeError) = true
+                  · simp [hx] at hf
+                  · simp only [hx] at hf
+                    simp only [Bool.or_eq_true, decide_eq_true_eq, not_or] at hx
+                    exact ⟨⟨hx.1.1, hx.1.2, hx.2⟩, by simpa using hf⟩
+                obtain ⟨h1, h2, h3⟩ := ih _ hp hf2.2
+                refine ⟨?_, ?_, ?_⟩
+                · rw [senBody_c8 html true b r c5, if_neg hf2.1.1, if_neg hf2.1.2.1, if_neg hf2.1.2.2, h1]
+                · have : illFormedHead (b :: r) = false := by
+                    simp [illFormedHead, hf2.1.2.2]
+                  simp [sanLoop, this, h2]
+                · intro x hx
+                  rcases List.mem_cons.mp hx with rfl | hx
+                  · exact Or.inr (Or.inr (Or.inr hb8))
+                  · exact h3 x hx
+              · simp [senForce, c1'.1, c1'.2, c2, c3, c4, c5] at hf
+
+/-- bare-class bytes other than `&`, backtick and `|` continue a token -/
+theorem bare_tokenOk (html : Bool) (b : UInt8) (h : bareByte html b) (h1 : b ≠ 38) (h2 : b ≠ 96) (h3 : b ≠ 124) :
+    expected .token b = .tokenOk := by
+  have := forall_byte (fun b => !(senClass b == cO || senClass b == c0 || senClass b == cH || decide (128 ≤ b)) ||
+      (b == 38 || b == 96 || b == 124) || expected .token b == .tokenOk) (by decide +kernel) b
+  simp only [Bool.or_eq_true, Bool.not_eq_true', beq_iff_eq, decide_eq_true_eq] at this
+  rcases this with (h0 | h0) | h0
+  · exfalso
+    rcases h with h | h | h | h
+    · simp [h] at h0
+    · simp [h] at h0
+    · simp [h.1] at h0
+    · simp [h] at h0
+  · rcases h0 with (h0 | h0) | h0
+    · exact absurd h0 h1
+    · exact absurd h0 h2
+    · exact absurd h0 h3
+  · exact h0
+
+/-- bytes of a class that may start a bare string, other than the signs and `&`, backtick, `|`,
+start a token in value position -/
+theorem first_tokenStart (b : UInt8) (h : senClass b = cO ∨ senClass b = c8 ∨ senClass b = cH)
+    (h1 : b ≠ 43) (h2 : b ≠ 45) (h3 : b ≠ 38) (h4 : b ≠ 96) (h5 : b ≠ 124) :
+    expected .value b = .tokenStart ∧ expected .token b = .tokenOk ∧ expected .space b ≠ .skipChar := by
+  have := forall_byte (fun b => !(senClass b == cO || senClass b == c8 || senClass b == cH) ||
+      (b == 43 || b == 45 || b == 38 || b == 96 || b == 124) ||
+      (expected .value b == .tokenStart && expected .token b == .tokenOk && expected .space b != .skipChar))
+    (by decide +kernel) b
+  simp only [Bool.or_eq_true, Bool.not_eq_true', Bool.and_eq_true, beq_iff_eq, bne_iff_ne] at this
+  rcases this with (h0 | h0) | h0
+  · exfalso
+    rcases h with h | h | h <;> simp [h] at h0
+  · rcases h0 with (((h0 | h0) | h0) | h0) | h0
+    · exact absurd h0 h1
+    · exact absurd h0 h2
+    · exact absurd h0 h3
+    · exact absurd h0 h4
+    · exact absurd h0 h5
+  · exact ⟨h0.1.1, h0.1.2, h0.2⟩
+
+section token
+variable (cfg : Cfg) (hc : cfg.tokenizer = false)
+include hc
+
+/-- token bytes are collected -/
+theorem token_run : ∀ (s : Bytes) (st : St) (f : Fast) (p : Pos) (rest : Bytes),
+    st.mode = .token → f.nlSkipping = false → f.inFast = false → (∀ x ∈ s, expected .token x = .tokenOk) →
+    ∃ p', runBytes refTables cfg st f p (s ++ rest) =
+      runBytes refTables cfg { st with tmp := s.reverse ++ st.tmp } f p' rest := by
+  intro s
+  induction s with
+  | nil => intro st f p rest _ _ _ _; exact ⟨p, by simp⟩
+  | cons b r ih =>
+    intro st f p rest hm hf hi hx
+    have hfS : fS f = f := by cases f; simp_all [fS]
+    rw [List.cons_append, runBytes_cons_ok cfg (fun l => step_tokenOk cfg hc st f b l hm (hx b List.mem_cons_self) hf), hfS]
+    obtain ⟨p', h⟩ := ih { st with tmp := b :: st.tmp } f (p.next false) rest hm hf hi
+      (fun x hx' => hx x (List.mem_cons_of_mem _ hx'))
+    exact ⟨p', by rw [h]; simp⟩
+
+end token
+
 end OjgVerif.Sen
